@@ -59,9 +59,9 @@ fn run_mt(case: &Value) -> Value {
 	let v = rt.block_on(async move {
 		let script = Script {
 			children: case["script"]["children"].as_array().map(|a| a.iter().map(beh_of).collect()).unwrap_or_default(),
-			spawn_fail: vec![], signal_fail: vec![], kill_fail: vec![],
+			spawn_fail: vec![], signal_fail: vec![], kill_fail: vec![], wait_fail: vec![],
 		};
-		let sh: Shared = Arc::new(Mutex::new(World { t0: tokio::time::Instant::now(), log: vec![], script, attempts: 0, spawned: 0, signals: 0, kills: 0 }));
+		let sh: Shared = Arc::new(Mutex::new(World { t0: tokio::time::Instant::now(), log: vec![], script, attempts: 0, spawned: 0, waits: 0, force_exit: None, signals: 0, kills: 0 }));
 		let command = Arc::new(Command { program: Program::Exec { prog: "true".into(), args: vec![] }, options: SpawnOptions::default() });
 		let (job, task) = start_job(command);
 		install_hook(&job, &sh, None).await;
@@ -86,6 +86,19 @@ fn run_mt(case: &Value) -> Value {
 						"restart_with_signal" => job.restart_with_signal(sig_of(&op["sig"]), grace),
 						"signal" => job.signal(sig_of(&op["sig"])),
 						"to_wait" => job.to_wait(),
+						"run_exit_wait" => {
+							// a run() whose function makes the command end at this very instant and queues a to_wait() (high lane)
+							let (sh2, m, j2) = (sh.clone(), op["mark"].as_u64().unwrap(), job.clone());
+							job.run(move |ctx| {
+								log(&sh2, &format!("mark({m},{},{})", state_tag(ctx.current), ctx.previous.map_or("-".into(), state_tag)));
+								sh2.lock().unwrap().force_exit = Some(tokio::time::Instant::now());
+								let (t, sh3) = (j2.to_wait(), sh2.clone());
+								tokio::spawn(async move {
+									t.await;
+									log(&sh3, &format!("waitdone({m})"));
+								});
+							})
+						}
 						"run" => {
 							let (sh2, m) = (sh.clone(), op["mark"].as_u64().unwrap());
 							job.run(move |ctx| log(&sh2, &format!("mark({m},{},{})", state_tag(ctx.current), ctx.previous.map_or("-".into(), state_tag))))
@@ -168,9 +181,10 @@ fn run_case(case: &Value) -> Value {
 			spawn_fail: case["script"]["spawn_fail"].as_array().map(|a| a.iter().map(|x| x.as_u64().unwrap() as usize).collect()).unwrap_or_default(),
 			signal_fail: case["script"]["signal_fail"].as_array().map(|a| a.iter().map(|x| x.as_u64().unwrap() as usize).collect()).unwrap_or_default(),
 			kill_fail: case["script"]["kill_fail"].as_array().map(|a| a.iter().map(|x| x.as_u64().unwrap() as usize).collect()).unwrap_or_default(),
+			wait_fail: case["script"]["wait_fail"].as_array().map(|a| a.iter().map(|x| x.as_u64().unwrap() as usize).collect()).unwrap_or_default(),
 		};
 		let sh: Shared = Arc::new(Mutex::new(World {
-			t0: tokio::time::Instant::now(), log: vec![], script, attempts: 0, spawned: 0, signals: 0, kills: 0,
+			t0: tokio::time::Instant::now(), log: vec![], script, attempts: 0, spawned: 0, waits: 0, force_exit: None, signals: 0, kills: 0,
 		}));
 		let command = Arc::new(Command {
 			program: Program::Exec { prog: "true".into(), args: vec![] },
@@ -183,7 +197,20 @@ fn run_case(case: &Value) -> Value {
 			let job = job.as_ref().unwrap();
 			let sh2 = sh.clone();
 			job.set_error_handler(move |e| log(&sh2, &format!("err({})", e.get().map_or("?".into(), |e| e.kind().to_string().replace(' ', "_")))));
-			install_hook(&job, &sh, None).await;
+			if let Some(d) = case["hook_delay"].as_u64() {
+				// an async spawn hook that takes time: the spawn it precedes (and the ticket of the control that asked for it) come after it
+				let sh2 = sh.clone();
+				job.set_spawn_async_hook(move |cmd, _ctx| {
+					cmd.wrap(SimWrapper { sh: sh2.clone() });
+					let sh3 = sh2.clone();
+					Box::new(async move {
+						tokio::time::sleep(std::time::Duration::from_millis(d)).await;
+						log(&sh3, "hookdone()");
+					})
+				}).await;
+			} else {
+				install_hook(job, &sh, None).await;
+			}
 		}
 		let nwait = case["waiters"].as_u64().unwrap_or(1) as usize;
 		let ops = case["ops"].as_array().unwrap().clone();
@@ -259,6 +286,19 @@ fn run_case(case: &Value) -> Value {
 				}
 				"set_hook" => install_hook(&job, &sh, Some(op["mark"].as_u64().unwrap())),
 				"unset_hook" => install_hook(&job, &sh, None),
+				"run_exit_wait" => {
+					// a run() whose function makes the command end at this very instant and queues a to_wait() (high lane)
+					let (sh2, m, j2) = (sh.clone(), op["mark"].as_u64().unwrap(), job.clone());
+					job.run(move |ctx| {
+						log(&sh2, &format!("mark({m},{},{})", state_tag(ctx.current), ctx.previous.map_or("-".into(), state_tag)));
+						sh2.lock().unwrap().force_exit = Some(tokio::time::Instant::now());
+						let (t, sh3) = (j2.to_wait(), sh2.clone());
+						tokio::spawn(async move {
+							t.await;
+							log(&sh3, &format!("waitdone({m})"));
+						});
+					})
+				}
 				o => panic!("op {o}"),
 			};
 			for w in 0..nwait {
